@@ -11,6 +11,19 @@
 #include <dispenso/once_function.h>
 #include <dispenso/task_set.h>
 
+#if defined(DISPENSO_VERIF)
+// Verification seam (dead unless -DDISPENSO_VERIF and a harness defines the symbol): lets the harness
+// keep a registry of future shared states.  what: 0 = small id of a registered state, 1 = state
+// created (q = address of its first word, allowInline_), 2 = state about to be deallocated, 3/4 = when_all / when_any shared block created
+// (p = address of a std::shared_ptr<const void> owning it, q = its counter word).
+extern "C" long long dispenso_verif_future(int what, const void* p, const void* q)
+    __attribute__((weak));
+#define DISPENSO_VERIF_FUTURE(what, p, q) \
+  (dispenso_verif_future ? dispenso_verif_future((what), (p), (q)) : 0LL)
+#else
+#define DISPENSO_VERIF_FUTURE(what, p, q) (0LL)
+#endif // DISPENSO_VERIF
+
 namespace dispenso {
 namespace detail {
 
@@ -138,10 +151,12 @@ class FutureImplBase : private FutureImplResultMember<Result> {
   using FutureImplResultMember<Result>::runToResult;
 
   bool ready() {
+    DISPENSO_VERIF_POINT("FuReadyLd", this);
     return status_.intrusiveStatus().load(std::memory_order_acquire) == kReady;
   }
 
   void run() {
+    DISPENSO_VERIF_NOTE("FuRunEnter", this, DISPENSO_VERIF_FUTURE(0, this, nullptr), 0);
     (void)run(kNotStarted);
     decRefCountMaybeDestroy();
   }
@@ -150,6 +165,7 @@ class FutureImplBase : private FutureImplResultMember<Result> {
     if (waitCommon(true)) {
       return;
     }
+    DISPENSO_VERIF_POINT("FuWaitBlock", this);
     status_.wait(kReady);
   }
 
@@ -170,13 +186,17 @@ class FutureImplBase : private FutureImplResultMember<Result> {
   }
 
   void incRefCount() {
+    DISPENSO_VERIF_POINT("FuIncRef", this);
     refCount_.fetch_add(1, std::memory_order_acquire);
   }
 
   void decRefCountMaybeDestroy() {
     DISPENSO_TSAN_ANNOTATE_HAPPENS_BEFORE(&refCount_);
+    DISPENSO_VERIF_POINT("FuDecRef", this);
     if (refCount_.fetch_sub(1, std::memory_order_release) == 1) {
       DISPENSO_TSAN_ANNOTATE_HAPPENS_AFTER(&refCount_);
+      DISPENSO_VERIF_POINT("FuDealloc", this);
+      (void)DISPENSO_VERIF_FUTURE(2, this, nullptr);
       dealloc();
     }
   }
@@ -184,10 +204,12 @@ class FutureImplBase : private FutureImplResultMember<Result> {
   void setReady() {
     status_.intrusiveStatus().store(kReady, std::memory_order_release);
     refCount_.store(1, std::memory_order_release);
+    (void)DISPENSO_VERIF_FUTURE(1, this, &allowInline_);
   }
 
   void setAllowInline(bool allow) {
     allowInline_ = allow;
+    (void)DISPENSO_VERIF_FUTURE(1, this, &allowInline_);
   }
 
   void setTaskSetCounter(std::atomic<ssize_t>* tsc) {
@@ -212,13 +234,16 @@ class FutureImplBase : private FutureImplResultMember<Result> {
  protected:
   bool run(int s) {
     while (s == kNotStarted) {
+      DISPENSO_VERIF_POINT("FuRunCas", this);
       if (status_.intrusiveStatus().compare_exchange_weak(s, kRunning, std::memory_order_acq_rel)) {
         DISPENSO_VERIF_NOTE("InlFutRun", this, PerPoolPerThreadInfo::inlineDepth(), 0);
         runFunc();
+        DISPENSO_VERIF_POINT("FuNotify", this);
         status_.notify(kReady);
         if (taskSetCounter_) {
           //  If we want TaskSet::wait to imply Future::is_ready(),
           //  we need to signal that *after* setting the Future status to ready.
+          DISPENSO_VERIF_POINT("FuTscDec", this);
           taskSetCounter_->fetch_sub(1, std::memory_order_release);
         }
         tryExecuteThenChain();
@@ -246,10 +271,12 @@ class FutureImplBase : private FutureImplResultMember<Result> {
   };
 
   void tryExecuteThenChain() {
+    DISPENSO_VERIF_POINT("FuChainLd", this);
     ThenChain* head = thenChain_.load(std::memory_order_acquire);
     // While the chain contains anything, let's try to get it and dispatch the chain.
     while (head) {
       DISPENSO_VERIF_NOTE("InlFutThenChain", this, PerPoolPerThreadInfo::inlineDepth(), 0);
+      DISPENSO_VERIF_POINT("FuChainTake", this);
       if (thenChain_.compare_exchange_weak(head, nullptr, std::memory_order_acq_rel)) {
         // Managed to exchange with head, value of thenChain_ now points to null chain.
         // Head points to the implicit list of items to be executed.
@@ -280,6 +307,7 @@ class FutureImplBase : private FutureImplResultMember<Result> {
 
   template <typename SomeFutureImpl, typename Schedulable>
   void addToThenChainOrExecute(SomeFutureImpl* impl, Schedulable& sched, std::launch asyncPolicy) {
+    DISPENSO_VERIF_POINT("FuThenLd", this);
     if (status_.intrusiveStatus().load(std::memory_order_acquire) == kReady) {
       if ((asyncPolicy & std::launch::async) == std::launch::async) {
         sched.schedule(impl->makeOnceFunction(), ForceQueuingTag());
@@ -301,19 +329,24 @@ class FutureImplBase : private FutureImplResultMember<Result> {
     } else {
       link->invoke = thenChainInvoke<SomeFutureImpl, Schedulable>;
     }
+    DISPENSO_VERIF_POINT("FuThenHeadLd", this);
     link->next = thenChain_.load(std::memory_order_acquire);
+    DISPENSO_VERIF_POINT("FuThenPush", this);
     while (!thenChain_.compare_exchange_weak(link->next, link, std::memory_order_acq_rel)) {
+      DISPENSO_VERIF_POINT("FuThenPush", this);
     }
 
     // Okay, one last thing.  It is possible that we added to the thenChain just after
     // tryExecuteThenChain was called from run(). We still need to ensure that this work is kicked
     // off, so just double check here, and execute if that may have happened.
+    DISPENSO_VERIF_POINT("FuThenRecheck", this);
     if (status_.intrusiveStatus().load(std::memory_order_acquire) == kReady) {
       tryExecuteThenChain();
     }
   }
 
   inline bool waitCommon(bool allowInline) {
+    DISPENSO_VERIF_POINT("FuWaitLd", this);
     int s = status_.intrusiveStatus().load(std::memory_order_acquire);
     return s == kReady || (allowInline && run(s));
   }
@@ -515,6 +548,7 @@ class FutureBase {
                 std::forward<F>(f),
                 (deferredPolicy & std::launch::deferred) == std::launch::deferred,
                 &taskSet.outstandingTaskCount_)) {
+    DISPENSO_VERIF_POINT("FuTscInc", this);
     taskSet.outstandingTaskCount_.fetch_add(1, std::memory_order_acquire);
     if ((asyncPolicy & std::launch::async) == std::launch::async) {
       taskSet.pool().schedulePlaced(impl_->makeOnceFunction(), ForceQueuingTag());
@@ -530,6 +564,7 @@ class FutureBase {
                 std::forward<F>(f),
                 (deferredPolicy & std::launch::deferred) == std::launch::deferred,
                 &taskSet.outstandingTaskCount_)) {
+    DISPENSO_VERIF_POINT("FuTscInc", this);
     taskSet.outstandingTaskCount_.fetch_add(1, std::memory_order_acquire);
     if ((asyncPolicy & std::launch::async) == std::launch::async) {
       taskSet.pool().schedulePlaced(impl_->makeOnceFunction(), ForceQueuingTag());
@@ -549,6 +584,7 @@ class FutureBase {
                 std::forward<F>(f),
                 (deferredPolicy & std::launch::deferred) == std::launch::deferred,
                 &invoker.taskSet.outstandingTaskCount_)) {
+    DISPENSO_VERIF_POINT("FuTscInc", this);
     invoker.taskSet.outstandingTaskCount_.fetch_add(1, std::memory_order_acquire);
     if ((asyncPolicy & std::launch::async) == std::launch::async) {
       invoker.schedule(impl_->makeOnceFunction(), ForceQueuingTag());
